@@ -75,6 +75,7 @@ func expectedProcs(c Config) map[string]string {
 
 // NewSim builds the workflow, calls Run and waits until every process is parked at its role gate.
 func NewSim(c Config) (*Sim, error) {
+	runDecoyWorkflow()
 	w := NewWorld(c.Name)
 	s := &Sim{W: w, Tok: map[string]string{}, Role: map[string]string{}}
 	for tok, role := range expectedProcs(c) {
